@@ -210,7 +210,7 @@ func generateGrid(family string, n int, r *rng, p func(string, ...any)) bool {
 			}
 			// private keys of the Go type ed25519.PrivateKey but of another length than 64 octets
 			// (32: the seed mistaken for the key), and opaque keys reporting a malformed public half
-			for _, k := range []string{"edp32", "edp48", "edp63", "edp65", "edp96", "edw31", "edw33"} {
+			for _, k := range []string{"edp16", "edp32", "edp48", "edp63", "edp65", "edp96", "edw31", "edw33", "edq16", "edq32", "edq48", "edq64", "edqn"} {
 				p("new signer %d %s", a, k)
 			}
 		}
